@@ -15,6 +15,7 @@ RULE = ('Hypothesis draws a type T, 1..4 values of it and for each a reference e
         'a seekable non-blocking source whose bursts arrive on the reader\'s own read clock). '
         'decode(e, T) of one encoding alone must not hand octets back; value errors of decode(e, T) belong to C01/C09 and only exclude the case. '
         'Non-trivial = non-empty tail, n >= 2, or e ends with 00 00; distinct = distinct (T, e1..en, t).')
+RULE += (' ' + "Also: a fresh StreamingDecoder per encoding on ONE non-seekable source whose doubles honour close() (what follows an encoding is preserved for the next reader, and the caller's stream stays open); inputs in the region of known finding F09 (long non-seekable streams with definite nested elements) are counted as excluded.")
 ASSUMPTIONS = ['input encodings come from pv/core/x690.py and are validated by its reader']
 SHARDS = {'quick': (16, 200), 'thorough': (16, 5000)}
 BUDGET = {'quick': 100, 'thorough': 1500}
